@@ -35,6 +35,7 @@ int run_script(std::size_t block_size, const std::string& header)
     {
         std::istringstream is(line); std::string op; is >> op;
         if (op.empty()) continue;
+        if (op[0] == '#') { std::printf("%s\n", line.c_str()); continue; }
         long oom0 = hc().oom, bad0 = hc().bad_size;
         std::string res;
         if (op == "a" || op == "t")
@@ -87,7 +88,7 @@ int run_script(std::size_t block_size, const std::string& header)
         std::printf("%s = %s |%s | %s\n", line.c_str(), res.c_str(), ev.c_str(), caps().c_str());
         std::fflush(stdout);
     }
-    std::printf("end live_blocks=%zu errors=%ld\n", U.live_count(), U.errors);
+    std::printf("end live_blocks=%zu errors=%ld stale_writes=%zu\n", U.live_count(), U.errors, U.stale_writes());
     return 0;
 }
 
